@@ -1,5 +1,5 @@
 """F-C05-b: the restart offset set by REST is applied to the next transfer *and* to the one after it
-(REST 5; RETR f; RETR g -> g is sent from byte 5)."""
+(PASV; REST 5; RETR f; <new data connection to the same listener>; RETR g -> g is sent from byte 5)."""
 import asyncio, os, sys, io
 sys.path.insert(0, os.path.join(os.environ.get("AIOFTP_REPO", "/repo"), "src"))
 import aioftp
@@ -13,14 +13,27 @@ async def main():
     pio.fs[0].content.append(Node("file", "f", content=io.BytesIO(b"0123456789")))
     pio.fs[0].content.append(Node("file", "g", content=io.BytesIO(b"abcdefghij")))
     try:
-        async with aioftp.Client.context(*server.address) as c:
-            async with c.download_stream("f", offset=5) as s:
-                first = await s.read()
-            async with c.download_stream("g") as s:
-                second = await s.read()
+        r, w = await asyncio.open_connection(*server.address)
+
+        async def cmd(line):
+            w.write(line.encode() + b"\r\n"); await w.drain()
+            return await r.readline()
+
+        await r.readline()
+        await cmd("USER anonymous")
+        line = (await cmd("PASV")).decode()
+        nums = line[line.index("(") + 1: line.index(")")].split(",")
+        port = (int(nums[4]) << 8) | int(nums[5])
+        await cmd("REST 5")
+        dr, dw = await asyncio.open_connection("127.0.0.1", port)
+        await cmd("RETR f")
+        first = await dr.read(); await r.readline()
+        dr2, dw2 = await asyncio.open_connection("127.0.0.1", port)
+        await cmd("RETR g")
+        second = await dr2.read(); await r.readline()
     finally:
         await server.close()
-    print("RETR f from 5:", first, " then plain RETR g:", second)
+    print("REST 5, RETR f:", first, " then plain RETR g:", second)
     print("REPRODUCED" if second != b"abcdefghij" else "NOT-REPRODUCED")
 
 
